@@ -508,7 +508,7 @@ class C14(Property):
             tree = cm.number(cm.instantiate(rng, schema))
             init, history = None, None
             if rng.random() < 0.25:
-                final, history = cm.rand_history(rng, tree, rng.choice([1, 2, 3]))
+                final, history = cm.rand_history(rng, tree, rng.choice([1, 2, 3]), rejected=rng.choice([0.0, 0.3]))
                 if history:
                     init, tree = tree, final
             nodes = list(cm.preorder(tree))
@@ -573,7 +573,13 @@ class C14(Property):
 
     # -------------------------------------------------------------- implementation
     def run_impl(self, case):
-        root, byid, label = cm.build_case(case)
+        try:
+            root, byid, label = cm.build_case(case)
+        except cm.ShapeMismatch as e:
+            # a rejected list operation of the pre-history left something behind: no labels, the observation
+            # disagrees with the model's (what that does to fq_name()/find() is C13's and C09's subject)
+            return {"ops": _ops_obs(case["path"]), "result": {"error": "harness:tree-shape-after-rejected-operation"},
+                    "_shape_mismatch": e.msg}
         start = byid[case["start"]]
         obs = {
             "ops": _ops_obs(case["path"]),
@@ -596,7 +602,10 @@ class C14(Property):
 
     # -------------------------------------------------------------- oracle (spec B on the real code)
     def oracle(self, case):
-        root, byid, label = cm.build_case(case)
+        try:
+            root, byid, label = cm.build_case(case)
+        except cm.ShapeMismatch:
+            return []   # see run_impl: nothing C14 can be checked against
         start = byid[case["start"]]
         path, strict, single = case["path"], case["strict"], case["single"]
         fails = []
@@ -671,7 +680,10 @@ class C14(Property):
         ast = case.get("ast")
         if ast is None:
             return None
-        root, byid, label = cm.build_case(case)
+        try:
+            root, byid, label = cm.build_case(case)
+        except cm.ShapeMismatch:
+            return None
         start = byid[case["start"]]
         single, strict = case["single"], case["strict"]
         if not self.has_model(case):
@@ -764,6 +776,10 @@ class C14(Property):
             t.append("tree-after-list-history")
             if any(op["op"] == "query" for op in case["history"]):
                 t.append("history-with-queries")
+            for op in case["history"]:
+                if op["op"] == "rejected":
+                    t.append("history-with-rejected-op")
+                    t.append("rejected:%s" % op["kind"])
             if case["start"] in cm.grafted_ids(case["history"]):
                 t.append("start-queried-before-graft")
         return sorted(set(t))
@@ -802,7 +818,7 @@ C14.rule = (
     "mostly existing, index spellings `n`/`[n]`/`-n`/` n`/`0n`/`+n`, every slice form, `..`/`.` anywhere, leading/"
     "trailing slash, optional escapes), 75% of them with all `..` first (the theorem's Canon domain); 15% malformed "
     "strings over path punctuation for the tokenizer; 25% of the trees are reached through a history of List operations "
-    "with path evaluations in between and with members that are built detached, queried and then grafted (such "
+    "(a third of them with rejected operations in between — see C13 —, each caught) with path evaluations in between and with members that are built detached, queried and then grafted (such "
     "elements are preferred start elements, 70% absolute paths); 6% of the cases are 'mixed' paths (a wide slice, then "
     "names that exist below some of the selected children only, more slices and a slice step written as 0 at a random "
     "place, 90% strict) so that a failing lookup and a zero step are reachable in one evaluation, at equal and at "
